@@ -599,7 +599,9 @@ class Interp:
             text = fmt.format(*values, **named)
         except (ValueError, IndexError, KeyError, TypeError) as ex:
             raise RefBug('format failed: {}'.format(ex))
-        self.trace.append(('out', text))
+        numbers = [v for v in list(values) + list(named.values())
+                   if isinstance(v, (int, float)) and not isinstance(v, bool)]
+        self.trace.append(('out', text, _scale_of(*numbers)))
 
     # ---- commands ---------------------------------------------------------------------
     def action(self, kind, operands):
@@ -910,7 +912,7 @@ def _rgb_to_hsv(r, g, b):
 
 
 # ---- comparing an observed trace with the expected one ---------------------------
-def _text_equal(want, got):
+def _text_equal(want, got, scale=1.0):
     """printf output: equal, or equal token by token with numbers compared
     numerically (a loop variable reached by repeated addition may differ from
     first + k*step in the last bits)."""
@@ -926,7 +928,7 @@ def _text_equal(want, got):
             fx, fy = float(x), float(y)
         except ValueError:
             return False
-        if abs(fx - fy) > 1e-9 * max(1.0, abs(fx), abs(fy)):
+        if abs(fx - fy) > 1e-9 * max(1.0, abs(fx), abs(fy), scale):
             return False
     return True
 
@@ -951,6 +953,9 @@ def event_matches(want, got, tolerance=1):
     if kind == 'wait_until':
         return want[1] == got[1]
     if kind == 'out':
+        if len(want) > 2 and isinstance(want[1], str) and isinstance(
+                got[1], str):
+            return _text_equal(want[1], got[1], want[2])
         return _num_equal(want[1], got[1])
     if kind == 'nl':
         return True
